@@ -2,6 +2,7 @@ package main
 
 import (
 	"context"
+	"errors"
 	"fmt"
 	"os"
 	"reflect"
@@ -25,13 +26,20 @@ type cancelCtx struct {
 	fired bool
 	delay time.Duration
 	mu    chan struct{} // 1-slot mutex (Done() is called from many goroutines)
+	cause context.CancelCauseFunc
 }
 
 func newCancelCtx(k int64, delay time.Duration) *cancelCtx {
-	c := &cancelCtx{Context: context.Background(), k: k, done: make(chan struct{}), delay: delay, mu: make(chan struct{}, 1)}
+	// the embedded context carries a cancellation *cause* different from its error (context.WithCancelCause):
+	// an operation must report ctx.Err(), not context.Cause(ctx)
+	inner, cause := context.WithCancelCause(context.Background())
+	c := &cancelCtx{Context: inner, cause: cause, k: k, done: make(chan struct{}), delay: delay, mu: make(chan struct{}, 1)}
 	c.mu <- struct{}{}
 	return c
 }
+
+var errHarnessCause = errors.New("harness: cancellation cause (must not be returned in place of ctx.Err())")
+
 func collectorCalling() bool {
 	var pcs [8]uintptr
 	n := runtime.Callers(3, pcs[:])
@@ -51,6 +59,7 @@ func (c *cancelCtx) Done() <-chan struct{} {
 	c.n++
 	if c.n >= c.k && !c.fired {
 		c.fired = true
+		c.cause(errHarnessCause)
 		close(c.done)
 	}
 	fired := c.fired
